@@ -9,6 +9,12 @@ spec["encode_seq"] = [ [file, function-or-macro, gallina-name, nth-or-null], ...
    the ordered list of (macro, argument text) of all *ENCODE / *DECODE invocations in the function body (raw source,
    comments stripped) or in the body of a #define  ->  Definition <name> : list (string * string)
    With [lo, hi] as 4th entry only the lo-th..hi-th invocations (0-based, inclusive) are emitted.
+spec["conds"] = [ [file, function, anchor-regex, gallina-name, [params], {c-subexpr: identifier}], ... ]
+   an integer condition of the function (group 1 of the anchor, which must match exactly once in the preprocessed
+   body), translated expression by expression  ->  Definition <name> (params : Z) : Z   (a C truth value is 0/1)
+spec["strconds"] = [ [file, function, anchor-regex, gallina-name, [a, b]], ... ]
+   a string comparison: group 1 must be  !strcmp(a, b)  (-> whole-string equality) or  !strncmp(a, b, strlen(a))
+   (-> "a is a prefix of b"); anything else is an error  ->  Definition <name> (a b : list Z) : bool
 """
 import re
 
@@ -91,4 +97,42 @@ def emit(repo, spec, H):
         out.append("(* %s: %s: order of the encode/decode calls *)" % (f, fn))
         out.append("Definition %s : list (string * string) :=\n  [%s]." % (
             name, ";\n   ".join('("%s"%%string, "%s"%%string)' % (a, b.replace('"', "'")) for a, b in items)))
+    for f, fn, anchor, name, params, subst in spec.get("conds", []):
+        body = H.func_body(H.src(repo, f), fn)
+        ms = list(re.finditer(anchor, body))
+        if len(ms) != 1:
+            raise ValueError("%s:%s: anchor %r matched %d times (need exactly 1)" % (f, fn, anchor, len(ms)))
+        cexpr = " ".join(ms[0].group(1).split())
+        e = cexpr
+        for k in sorted(subst, key=len, reverse=True):
+            e = e.replace(k, " %s " % subst[k])
+        e = re.sub(r"\(\s*(?:unsigned\s+)?(?:long|int32|int|uint32|size_t|unsigned)\s*\)", " ", e)
+        env = {}
+        env.update(H.all_enums(H.src(repo, f)))
+        env.update(H.defines(repo, f))
+        term = H.P(e, params, env).ternary_all()
+        out.append("(* %s: %s: %s *)" % (f, fn, cexpr.replace("*)", "* )").replace("(*", "( *")))
+        out.append("Definition %s %s : Z := %s." % (name, " ".join("(%s : Z)" % p_ for p_ in params), term))
+    if spec.get("strconds"):
+        out.append("Fixpoint str_eqb (a b : list Z) : bool := match a, b with [], [] => true | x :: a', y :: b' => "
+                   "andb (Z.eqb x y) (str_eqb a' b') | _, _ => false end.")
+        out.append("Fixpoint str_prefixb (a b : list Z) : bool := match a, b with [], _ => true | x :: a', y :: b' => "
+                   "andb (Z.eqb x y) (str_prefixb a' b') | _, _ => false end.")
+    for f, fn, anchor, name, params in spec.get("strconds", []):
+        body = H.func_body(H.src(repo, f), fn)
+        ms = list(re.finditer(anchor, body))
+        if len(ms) != 1:
+            raise ValueError("%s:%s: anchor %r matched %d times (need exactly 1)" % (f, fn, anchor, len(ms)))
+        cexpr = "".join(ms[0].group(1).split())
+        a, b = params
+        if cexpr == "!strcmp(%s,%s)" % (a, b) or cexpr == "!strcmp(%s,%s)" % (b, a):
+            term = "str_eqb %s %s" % (a, b)
+        elif cexpr == "!strncmp(%s,%s,strlen(%s))" % (a, b, a):
+            term = "str_prefixb %s %s" % (a, b)
+        elif cexpr == "!strncmp(%s,%s,strlen(%s))" % (a, b, b) or cexpr == "!strncmp(%s,%s,strlen(%s))" % (b, a, b):
+            term = "str_prefixb %s %s" % (b, a)
+        else:
+            raise ValueError("%s:%s: unsupported string comparison %r" % (f, fn, cexpr))
+        out.append("(* %s: %s: %s *)" % (f, fn, cexpr))
+        out.append("Definition %s (%s %s : list Z) : bool := %s." % (name, a, b, term))
     return out
